@@ -348,7 +348,7 @@ static RefLex ref_lex(const rx::Dfa& d, const std::string& s, bool ws, bool nl)
     return r;
 }
 
-enum LProp { LC04, LC10, LC12, LC16 };
+enum LProp { LC04, LC10, LC12, LC16, LC15 };
 
 static Verdict check_lexer(LProp prop, const LCase& c, Stats& st)
 {
@@ -374,7 +374,7 @@ static Verdict check_lexer(LProp prop, const LCase& c, Stats& st)
     if (of) return Verdict::discard("spec-too-big");
     rx::Dfa spec; if (!rx::determinize(nfa, starts, acc, spec)) return Verdict::discard("spec-too-big");
     bool any_nullable = spec.label[0] >= 0;
-    if (any_nullable && prop != LC04 && prop != LC16) return Verdict::discard("nullable-term");
+    if (any_nullable && prop != LC04 && prop != LC16 && prop != LC15) return Verdict::discard("nullable-term");
 
     // the budget the library derives: sum of Terms::dfa_size (char 2, string 2*len, pattern = analyze_dfa_size)
     try { for (auto& t : c.terms) budget += lx::real_term_budget(t); }
@@ -416,8 +416,8 @@ static Verdict check_lexer(LProp prop, const LCase& c, Stats& st)
         if (inc2) return Verdict::discard("comparison-too-big");
         int sl = rx::dfa_run(spec, w), il = rx::dfa_run(impl, w);
         det.set("witness_hex", vj::hex(w)); det.set("witness", w); det.set("spec_term", sl); det.set("impl_term", il); det.set("same_as_model_of_pinned_construction", same);
-        if (prop == LC16 && !same) return Verdict::discard("lexer-automaton-differs-from-reference(C04's subject)");
-        if (prop != LC16 && !(same && eng::args().is_known("F5")))
+        if ((prop == LC16 || prop == LC15) && !same) return Verdict::discard("lexer-automaton-differs-from-reference(C04's subject)");
+        if (prop != LC16 && prop != LC15 && !(same && eng::args().is_known("F5")))
             return Verdict::fail(prop == LC04 ? "lexer automaton does not implement longest-match / first-listed priority for some input" : "lexer automaton differs from the reference", det);
         affected = true; tokenizer = &model;
     }
@@ -464,6 +464,26 @@ static Verdict check_lexer(LProp prop, const LCase& c, Stats& st)
             std::string want;
             if (rl.error) { std::ostringstream ws; ws << "[" << rl.err_line << ":" << rl.err_col << "] PARSE: Unexpected character: " << char(rl.err_byte) << "\n"; want = ws.str(); }
             if (os.str() != want) { auto d = fd(); d.set("expected_stream", want); return Verdict::fail("wrong or missing 'Unexpected character' report", d); }
+        }
+        if (prop == LC15)
+        {
+            // the same call again (and a third time with verbose output in between): a call gives the result it would give in isolation - in particular
+            // the FIRST call of a kind in the process must not differ from later ones (once-only hints, lazily filled caches, static flags)
+            auto again = [&](bool verbose, std::string& text_out, bool& has_out, std::vector<lx::TermCall>& calls) -> bool
+            {
+                lx::Log l2; lx::g_log = &l2; std::ostringstream o2;
+                try { auto res = p.parse(ctpg::parse_options{}.set_skip_whitespace(in.ws).set_skip_newline(in.nl).set_verbose(verbose), ctpg::buffers::string_view_buffer(sv), o2); has_out = res.has_value(); }
+                catch (const std::exception&) { lx::g_log = nullptr; return false; }
+                lx::g_log = nullptr; text_out = o2.str(); calls = l2.terms; return true;
+            };
+            std::string t2, t3, tv; bool h2 = false, h3 = false, hv = false; std::vector<lx::TermCall> c2, c3, cv;
+            bool ok2 = again(false, t2, h2, c2), okv = again(true, tv, hv, cv), ok3 = again(false, t3, h3, c3);
+            st.sub_evaluations += st.counting ? 3 : 0;
+            auto same_calls = [](const std::vector<lx::TermCall>& a, const std::vector<lx::TermCall>& b) { if (a.size() != b.size()) return false; for (size_t i = 0; i < a.size(); ++i) if (a[i].term != b[i].term || a[i].data != b[i].data || a[i].size != b[i].size) return false; return true; };
+            if (!ok2 || !okv || !ok3) { auto d = fd(); return Verdict::fail("a repeated call threw", d); }
+            if (h2 != has || h3 != has || hv != has || t2 != os.str() || t3 != os.str() || !same_calls(c2, log.terms) || !same_calls(c3, log.terms))
+            { auto d = fd(); d.set("first_call_stream", os.str()); d.set("second_call_stream", t2); d.set("third_call_stream", t3); return Verdict::fail("the same call repeated on the same parser gave a different result (result, error stream text or term functor calls)", d); }
+            if (rl.toks.size() >= 1 || rl.error) ++interesting;
         }
         if (prop == LC16 && in.text.size() <= 4000)   // (the per-character lexer trace of a giant lexeme is megabytes of text)
         {
@@ -528,7 +548,7 @@ static Verdict check_lexer(LProp prop, const LCase& c, Stats& st)
         bool giant = false; for (auto& in : c.inputs) if (in.text.size() > 400) giant = true;
         if (st.want_sample() && !giant) { vj::Value s = lcase_json(c); st.sample(s); }
     }
-    if (affected && prop != LC16) { if (st.counting) st.excluded_known["F5"]++; }
+    if (affected && prop != LC16 && prop != LC15) { if (st.counting) st.excluded_known["F5"]++; }
     return Verdict::pass();
 }
 
@@ -536,7 +556,7 @@ template<LProp PROP>
 struct LP
 {
     using Case = LCase;
-    static const char* id() { return PROP == LC04 ? (eng::args().prop == "C09l" ? "C09l" : eng::args().prop == "C03l" ? "C03l" : "C04") : PROP == LC10 ? "C10l" : PROP == LC16 ? "C16l" : "C12l"; }
+    static const char* id() { return PROP == LC04 ? (eng::args().prop == "C09l" ? "C09l" : eng::args().prop == "C03l" ? "C03l" : "C04") : PROP == LC10 ? "C10l" : PROP == LC16 ? "C16l" : PROP == LC15 ? "C15l" : "C12l"; }
     static Case gen(Choice& ch) { return gen_lcase(ch); }
     static vj::Value to_json(const Case& c) { return lcase_json(c); }
     static Case from_json(const vj::Value& v) { return lcase_from(v); }
@@ -554,6 +574,7 @@ int main(int argc, char** argv)
         else if (a.prop == "C10l") rc = eng::run_property<LP<LC10>>(a);
         else if (a.prop == "C12l") rc = eng::run_property<LP<LC12>>(a);
         else if (a.prop == "C16l") rc = eng::run_property<LP<LC16>>(a);
+        else if (a.prop == "C15l") rc = eng::run_property<LP<LC15>>(a);
         else { fprintf(stderr, "unknown --prop %s\n", a.prop.c_str()); rc = 2; }
     });
     return rc;
